@@ -718,7 +718,9 @@ pub fn unordered_list_item(input: ParseString) -> ParseResult<(Option<Token>,Par
   let msg2 = "Expects paragraph as list item";
   let (input, _) = dash(input)?;
   let (input, bullet) = opt(tuple((left_parenthesis, emoji, right_parenthesis)))(input)?;
-  let (input, _) = labelr!(null(many1(space)), skip_nil, msg1)(input)?;
+  // A list item is "dash, space": a line such as `-- comment` or `-3 + x` after a list is not an item.
+  // (Recovering here made every unordered list followed by such a line a parse error of the whole document.)
+  let (input, _) = null(many1(space))(input)?;
   let (input, list_item) = labelr!(paragraph_newline, |input| recover::<Paragraph, _>(input, skip_till_eol), msg2)(input)?;
   let (input, _) = many0(new_line)(input)?;
   let bullet = match bullet {
